@@ -4,7 +4,7 @@
     lemma is decided by computation and stops checking when the source
     changes. *)
 From Coq Require Import List NArith ZArith String Bool.
-From Verif Require Import Lib.Utf8 Jsonx.GenTypes Gen.JsonxConsts Jsonx.Lex Jsonx.Tok Jsonx.Parse.
+From Verif Require Import Lib.Utf8 Jsonx.GenTypes Gen.JsonxConsts Gen.JsonxOwn Jsonx.Own Jsonx.Lex Jsonx.Tok Jsonx.Parse.
 Import ListNotations.
 Local Open Scope string_scope.
 
@@ -42,14 +42,6 @@ Lemma gen_token_codes_distinct :
   List.length gen_lexing_codes = 3%nat /\ List.length gen_jsonx_codes = 8%nat.
 Proof. vm_compute. repeat split. Qed.
 
-Lemma gen_token_codes_frozen :
-  all2 code_eqb all_codes
-    [("EOF", Some (-1)%Z); ("Comment", Some (-2)%Z); ("Illegal", Some (-3)%Z);
-     ("tokKeyword", Some 0%Z); ("tokIdent", Some 1%Z); ("tokString", Some 2%Z);
-     ("tokInt", Some 3%Z); ("tokFloat", Some 4%Z); ("tokOperator", Some 5%Z);
-     ("tokSemi", Some 6%Z); ("tokEndl", Some 7%Z)] = true.
-Proof. vm_compute. reflexivity. Qed.
-
 (** The keyword set. *)
 Definition gkeyword_eqb (g : gkeyword) (k : list N) : bool :=
   match g with GK r => list_N_eqb r k | GKUnknown _ => false end.
@@ -82,24 +74,32 @@ Proof. vm_compute. reflexivity. Qed.
 Lemma gen_add_capped : capped_append gen_add_skeleton = true.
 Proof. vm_compute. reflexivity. Qed.
 
-Lemma gen_add_skeleton_frozen :
-  gen_add_skeleton = [ANilPanic; ASetJail; ACapReturn; AAppend].
+(** The error state.  Every write to the jail flag and to an error list in
+    lexing/ and jsonx/ is one the model has: the flag is raised in Add,
+    lowered in BailOut, the list grows in Add, the lists are made at
+    construction, nothing else writes them or takes their address
+    ([writes_ok]).  The helpers the lexer and the parser actually go through
+    are one-statement delegations with the parameters passed on in order. *)
+Lemma gen_error_state_writes_ok : writes_ok gen_error_state_writes = true.
 Proof. vm_compute. reflexivity. Qed.
 
-(** The error state is read and reset only through these one-line helpers. *)
-Lemma gen_error_state_helpers_agree :
-  gen_error_state_helpers =
-  [ ("ErrorList.InJail", "return lst.inJail");
-    ("ErrorList.BailOut", "lst.inJail = false");
-    ("ErrorList.Jail", "lst.inJail = true");
-    ("ErrorList.Errorf", "lst.Add(&Error{p, fmt.Errorf(f, args...), """"})");
-    ("ErrorList.CodeErrorf", "lst.Add(&Error{p, fmt.Errorf(f, args...), c})");
-    ("Parser.InError", "return p.errs.InJail()");
-    ("Parser.BailOut", "p.errs.BailOut()");
-    ("Parser.Jail", "p.errs.Jail()");
-    ("Parser.Errorf", "p.errs.CodeErrorf(pos, """", f, args...)");
-    ("Parser.CodeErrorf", "p.errs.CodeErrorf(pos, c, f, args...)") ].
-Proof. vm_compute. reflexivity. Qed.
+Definition deleg_ok (name : string) (d : edeleg) : bool :=
+  match List.find (fun nd => String.eqb (fst nd) name) gen_error_state_delegations with
+  | Some (_, d') => edeleg_eqb d d'
+  | None => false
+  end.
+
+Lemma gen_error_state_delegations_ok :
+  deleg_ok "ErrorList.InJail" (DReturnField "inJail") = true /\
+  deleg_ok "ErrorList.BailOut" (DSetField "inJail" false) = true /\
+  deleg_ok "ErrorList.CodeErrorf" (DCallSelf "Add" ["&Error{p, fmt.Errorf(f, args...), c}"]) = true /\
+  deleg_ok "Parser.InError" (DCallField "errs" "InJail" []) = true /\
+  deleg_ok "Parser.BailOut" (DCallField "errs" "BailOut" []) = true /\
+  deleg_ok "Parser.CodeErrorf" (DCallField "errs" "CodeErrorf" ["$pos"; "$c"; "$f"; "$args..."]) = true /\
+  deleg_ok "Parser.CodeErrorfHere" (DCallSelf "CodeErrorf" ["p.t.Pos"; "$c"; "$f"; "$args..."]) = true /\
+  deleg_ok "Lexer.Errorf" (DCallField "errs" "CodeErrorf" ["x.s.startPos()"; """"""; "$f"; "$args..."]) = true /\
+  deleg_ok "Lexer.CodeErrorf" (DCallField "errs" "CodeErrorf" ["x.s.startPos()"; "$c"; "$f"; "$args..."]) = true.
+Proof. vm_compute. repeat split. Qed.
 
 (** The places that test the error state are the ones the model has:
     Expect, ExpectLit, SkipErrStmt, expectOp, the two entry loops, and the
@@ -174,3 +174,29 @@ Lemma gen_semi_operator_agree :
   | _ => false
   end = true.
 Proof. vm_compute. reflexivity. Qed.
+
+(** Ownership of results (gen/jsonx_own.go, Gen/JsonxOwn.v): every function
+    of jsonx / lexing / strtoken with a []byte result returns nil, a buffer
+    made in that very call, or what another such function returns; and no
+    package-level variable is or holds a buffer (sync.Pool, bytes.Buffer,
+    []byte, strings.Builder).  So the allocation policy of Jsonx/Own.v is
+    [Fresh], and the caller of Marshal / ToJSON owns what it was handed. *)
+Lemma gen_results_fresh : results_fresh gen_result_origins gen_pkg_buffers = true.
+Proof. vm_compute. reflexivity. Qed.
+
+Lemma gen_policy_fresh : policy_of gen_result_origins gen_pkg_buffers = Fresh.
+Proof. unfold policy_of. now rewrite gen_results_fresh. Qed.
+
+Lemma gen_result_functions_present :
+  forallb (fun f => existsb (fun fo => String.eqb (fst fo) f) gen_result_origins)
+          ["jsonx.Marshal"; "jsonx.ToJSON"; "jsonx.marshalValue"] = true.
+Proof. vm_compute. reflexivity. Qed.
+
+Lemma gen_results_owned (F : list N -> list N) h k :
+  read (run F (policy_of gen_result_origins gen_pkg_buffers) h) k = nth_error (spec F h) k.
+Proof. rewrite gen_policy_fresh. apply fresh_is_spec. Qed.
+
+Lemma gen_result_stable (F : list N -> list N) h1 i h2 :
+  forallb (fun e => negb (writes_to (ncalls h1) e)) h2 = true ->
+  read (run F (policy_of gen_result_origins gen_pkg_buffers) (h1 ++ ECall i :: h2)) (ncalls h1) = Some (F i).
+Proof. rewrite gen_policy_fresh. apply fresh_result_stable. Qed.
